@@ -72,3 +72,7 @@ def sum_aggregate(parts):
 
 def as_record(x):
     return {"a": x, "b": x % 3}
+
+
+def neg(x):
+    return -x
